@@ -6,6 +6,7 @@ import (
 	"encoding/json"
 	"fmt"
 	"io"
+	"log/slog"
 	"net/http"
 	"net/http/httptest"
 	"net/url"
@@ -31,6 +32,8 @@ type Conf struct {
 	Mod   func(c *config.Config)    // adjust the configuration
 	Prep  func(dir string)          // populate the directory before the server is created
 	Extra map[string]string         // free-form parameters for the check
+	Step  time.Duration             // virtual time that passes after every request (0 = the clock only moves by explicit operations)
+	Shadow string                   // "mem": every request is also served by a memory store instance (store equivalence)
 	Nest  bool                      // the root directory is created inside an outer directory that holds sentinel files
 }
 
@@ -42,6 +45,8 @@ type World struct {
 	Dir    string
 	Outer  string // with Conf.Nest: the directory around the root
 	S      *olareg.Server
+	Sh     *olareg.Server // shadow instance (Conf.Shadow)
+	ShPanic string
 	Cfg    config.Config
 	Slots  map[string]string // session slot -> id (for canonical dumps)
 	M      any               // reference model (check specific)
@@ -122,8 +127,22 @@ func NewWorld(conf *Conf, rc vrt.Config) *World {
 	if conf.Mod != nil {
 		conf.Mod(&c)
 	}
+	if os.Getenv("VERIF_LOG") != "" {
+		c.Log = slog.New(slog.NewTextHandler(os.Stderr, &slog.HandlerOptions{Level: slog.LevelDebug, ReplaceAttr: func(_ []string, a slog.Attr) slog.Attr {
+			if a.Key == slog.TimeKey {
+				return slog.String("vt", time.Duration(vrt.NowNanos()-vrt.Epoch).String())
+			}
+			return a
+		}}))
+	}
 	w.Cfg = c
 	w.S = olareg.New(c)
+	if conf.Shadow == "mem" {
+		sc := c
+		sc.Storage.StoreType = config.StoreMem
+		sc.Storage.RootDir = ""
+		w.Sh = olareg.New(sc)
+	}
 	vrt.Quiesce()
 	return w
 }
@@ -289,6 +308,29 @@ func (w *World) DoNoQuiesce(r Req) (resp Resp) {
 		w.Dead = "panic: " + firstLine(resp.Panic)
 		top := resp.PanicAt
 		w.AutoViol = append(w.AutoViol, V("no-panic", "panic:"+top, "handler panicked on %s %s?%s: %s", r.Method, r.Path, r.Query, resp.Panic))
+	}
+	if w.Sh != nil {
+		func() {
+			defer func() {
+				if p := recover(); p != nil {
+					if vrt.IsAbort(p) {
+						panic(p)
+					}
+					w.ShPanic = fmt.Sprint(p)
+				}
+			}()
+			req2 := req.Clone(ctx)
+			if r.Body != nil {
+				req2.Body = io.NopCloser(bytes.NewReader(r.Body))
+			} else {
+				req2.Body = http.NoBody
+			}
+			w.Sh.ServeHTTP(httptest.NewRecorder(), req2)
+		}()
+	}
+	if w.Conf != nil && w.Conf.Step > 0 {
+		vrt.Quiesce()
+		vrt.Advance(w.Conf.Step, false)
 	}
 	w.LastResp = resp
 	if w.Verbose {
